@@ -521,6 +521,9 @@ const (
 
 func (t *smallHuffCodeTable) genForDists(codes []huffCode, count []uint16, maxSymbol uint32) {
 	var countTotal, countTotalTmp [17]uint32
+	// entries of codes that this block does not assign must decode to
+	// "invalid", not to whatever the previous block left in the table
+	*t = smallHuffCodeTable{}
 
 	for i := 2; i < 17; i++ {
 		countTotal[i] = countTotal[i-1] + uint32(count[i-1])
